@@ -184,6 +184,20 @@ func judgeC19(c c19Case) (string, string) {
 		}
 	}
 	if res.SendErr != nil || res.RecvErr != nil {
+		// known finding: the top-level source entry named like the listing file is dropped before the stream validators
+		// see it, what depends on it (entries below it, a later hard link to it) is not - the validators then reject a
+		// stream that is valid
+		dependents := false
+		if ln := src.Find(listingName); ln != nil {
+			for _, n := range src {
+				if strings.HasPrefix(n.Path, listingName+"/") || (n.Path != listingName && ln.HL != 0 && n.HL == ln.HL) {
+					dependents = true
+				}
+			}
+		}
+		if dependents && res.RecvErr != nil && (strings.Contains(res.RecvErr.Error(), "changes out of order") || strings.Contains(res.RecvErr.Error(), "invalid link")) {
+			return "transfer-failed:dependents-of-listing-named-entry", fmt.Sprintf("send=%v recv=%v", res.SendErr, res.RecvErr)
+		}
 		return "transfer-failed", fmt.Sprintf("send=%v recv=%v", res.SendErr, res.RecvErr)
 	}
 	if b, _ := os.ReadFile(outside); string(b) != "sentinel" {
@@ -297,7 +311,10 @@ func c19Cases(tier string) []c19Case {
 	shapes := fsmodel.Shapes(uni, kinds)
 	metaVariants := []fsmodel.Tree{nil,
 		{{Path: listingName, Kind: fsmodel.File, Perm: 0644, Mtime: fsmodel.T0 + 5, Data: []byte("i am a source file")}},
-		{{Path: listingName, Kind: fsmodel.Dir, Perm: 0755, Mtime: fsmodel.T0 + 5}}}
+		{{Path: listingName, Kind: fsmodel.Dir, Perm: 0755, Mtime: fsmodel.T0 + 5}},
+		// ... a directory of that name with something below it; a file of that name that has a second name further on
+		{{Path: listingName, Kind: fsmodel.Dir, Perm: 0755, Mtime: fsmodel.T0 + 5}, {Path: listingName + "/x", Kind: fsmodel.File, Perm: 0644, Mtime: fsmodel.T0 + 6, Data: []byte("below")}},
+		{{Path: listingName, Kind: fsmodel.File, Perm: 0644, Mtime: fsmodel.T0 + 5, Data: []byte("two names"), HL: 9}, {Path: "zz-link", Kind: fsmodel.File, Perm: 0644, Mtime: fsmodel.T0 + 5, Data: []byte("two names"), HL: 9}}}
 	for _, sh := range shapes {
 		for mi, mv := range metaVariants {
 			t := append(sh.Clone(), mv...)
